@@ -732,6 +732,9 @@ pub fn run_history(ctx: &mut Ctx, src: &mut Source, seed: u64) -> Option<History
     let mut rolled_back = false;
     let mut aborted_by_reopen = false;
     let mut rolled_back_since_open = false;
+    // TRUNCATE is not logged (KF-C04-01): once one ran with the WAL on, any later WAL replay
+    // (explicit, automatic or at open) can bring the truncated rows back
+    let mut truncated_under_wal = false;
     // per table: the largest AUTO_INCREMENT value that was ever part of the committed state
     let mut committed_auto_max: std::collections::BTreeMap<String, i64> = Default::default();
     // tables that got a column added while they held rows (old rows keep the old record layout)
@@ -919,6 +922,7 @@ pub fn run_history(ctx: &mut Ctx, src: &mut Source, seed: u64) -> Option<History
             ),
             ("rolled_back", rolled_back.to_string()),
             ("aborted_by_reopen", aborted_by_reopen.to_string()),
+            ("truncated_under_wal", truncated_under_wal.to_string()),
             (
                 "table_widened",
                 (tname.as_ref().map_or(false, |t| widened_tables.contains(t))
@@ -1173,6 +1177,9 @@ pub fn run_history(ctx: &mut Ctx, src: &mut Source, seed: u64) -> Option<History
                 aborted_by_reopen = true;
             }
             rolled_back_since_open = false;
+        }
+        if matches!(op, Op::Truncate(_)) && actual.is_ok() && ctx.swarm.cfg.wal {
+            truncated_under_wal = true;
         }
         if let Op::AddColumn { table, .. } = op {
             if actual.is_ok() && view_before.tables.get(table).map_or(false, |t| !t.rows.is_empty()) && !widened_tables.contains(table) {
